@@ -662,6 +662,36 @@ theorem conforming_input_clean (o : Opts) (hcmd : o.isCheck = true) (htgt : o.ta
     conforming_stream_accepted o.checkCfg hits hst (by simp [Opts.checkCfg, htp]) (by simp [Opts.checkCfg, hver]) _ hconf d hd
   exact run_clean_of_quiet_validators o hcmd hcd hph ps hwf hlen hgate hsys d hd (by simp [hmsgs])
 
+/-- **C01 (whole run, `check sanity` / `check all` without a target)**: the same for the two
+    target-less modes, where only the RDH rule lists apply -/
+theorem conforming_input_clean_plain (o : Opts) (hcmd : o.isCheck = true) (htgt : o.target = .none)
+    (hver : o.customRdhVersion = none) (hcd : o.customCdps = none) (hph : o.customPht = none)
+    (ps : List C03.RawPkt) (hwf : ∀ p ∈ ps, C03.WF p)
+    (hlen : ¬ (C03.bytesOf ps).length < 8) (hgate : initGateBad (C03.bytesOf ps) = false)
+    (hsys : ∀ p ∈ ps, validSystemIds.contains p.rdh.systemId = true)
+    (hconf : ∀ i, ∃ (id0 : Nat) (hs : Hdrs),
+      C06.ofId o.checkCfg i (C03.expected o.scanCfg 0 ps) = hs.map mkPkt ∧ ConformingRdhs o.checkCfg id0 [] hs) :
+    ∃ out, run o (C03.bytesOf ps) = .ok out ∧ out.initErr = false ∧ out.fin.total = 0 ∧
+      out.fin.coll.fatal = none ∧ out.fin.errors = [] ∧ out.shown = [] ∧ out.exit = 0 := by
+  have hits : o.checkCfg.itsChecks = false := by simp [Opts.checkCfg, CheckCfg.itsChecks, htgt]
+  have hst : o.checkCfg.stave = false := by simp [Opts.checkCfg, CheckCfg.stave, htgt]
+  obtain ⟨d, hd⟩ := C04.no_panic_all_validators_nonstave o.checkCfg hst (C03.expected o.scanCfg 0 ps)
+  have hn := run_ids_nodup o.checkCfg _ [] d (by simp) hd
+  have hmsgs : d.allMsgs = [] := by
+    unfold DispSt.allMsgs
+    rw [List.flatMap_eq_nil_iff]
+    intro x hx
+    have hpart := C06.dispatch_partition o.checkCfg _ d hd x.1
+    obtain ⟨id0, hs, hof, hc⟩ := hconf x.1
+    obtain ⟨s', hrun⟩ := conforming_rdhs_accepted o.checkCfg hits (by simp [Opts.checkCfg, hver]) id0 hs hc
+    unfold C06.alone at hpart
+    rw [hof, hrun] at hpart
+    simp only [Except.ok.injEq] at hpart
+    unfold DispSt.msgsOf at hpart
+    rw [find_of_nodup d hn x hx] at hpart
+    exact hpart.symm
+  exact run_clean_of_quiet_validators o hcmd hcd hph ps hwf hlen hgate hsys d hd (by simp [hmsgs])
+
 /-- **C01 (whole run, `check all its-stave`)**: the same for the stave-level checks, for inputs
     whose FEE IDs all have a valid layer and whose per-FEE-ID packet sequences follow the protocol
     grammar and the frame grammar (no custom ALPIDE checks configured) -/
